@@ -24,6 +24,7 @@ REPLAYS = os.path.join(EVID, "replays")
 DRIVER = os.path.join(LEAN, ".lake", "build", "bin", "driver")
 HBIN = os.path.join(HARNESS, "target", "debug", "melstf-verif-harness")
 SHARDS = 12
+QSHARDS = 4
 AXIOM_WHITELIST = {"propext", "Classical.choice", "Quot.sound"}
 FORBIDDEN = ["sorry", "admit", "native_decide", "bv_decide", "implemented_by", "unsafe ", "maxHeartbeats 0"]
 
@@ -168,9 +169,16 @@ def load_known():
 def match_known(prop, viol, known):
     """a violation matches an open finding when every key of its signature matches (regex)"""
     for k in known:
-        if k.get("status") != "open" or prop not in k["properties"]:
+        if k.get("status") != "open":
             continue
-        for sig in ([k["signature"]] if "signature" in k else []) + k.get("signatures", []):
+        if prop in k["properties"]:
+            sigs = ([k["signature"]] if "signature" in k else []) + k.get("signatures", [])
+        elif prop in k.get("also_seen_under", {}).get("properties", []):
+            # the finding violates other properties; under this one it only shows as a model/implementation divergence
+            sigs = k["also_seen_under"]["signatures"]
+        else:
+            continue
+        for sig in sigs:
             ok = True
             for key, pat in sig.items():
                 v = viol.get(key)
@@ -242,18 +250,19 @@ def run_check(prop, tier):
             runs.append((name, count, None, ""))
             for i, threads in enumerate(s.get("rayon", []) if thorough else s.get("rayon", [])[:2]):
                 runs.append((name, max(1, count // 3), {"RAYON_NUM_THREADS": str(threads)}, "-t%s" % threads))
-        # thorough tier: shard the big streams over the cores (each shard has its own derived seed and directory)
-        if thorough:
-            sharded = []
-            for (name, count, env, tag) in runs:
-                nsh = SHARDS if (env is None and count >= 4 * SHARDS and name not in ("codec", "weight", "exec", "feemult")) else 1
-                for k in range(nsh):
-                    sharded.append((name, max(1, count // nsh), env, tag + ("-s%d" % k if nsh > 1 else ""), seed * 1000 + k if nsh > 1 else seed))
-            runs5 = sharded
-        else:
-            runs5 = [(n, c, e, t, seed) for (n, c, e, t) in runs]
+        # the state streams are sharded over the cores (each shard has its own derived seed and directory)
+        VMS = ("codec", "weight", "exec", "feemult", "confirm", "merkle")
+        sharded = []
+        for (name, count, env, tag) in runs:
+            if thorough:
+                nsh = SHARDS if (env is None and count >= 4 * SHARDS and name not in VMS) else 1
+            else:
+                nsh = QSHARDS if (env is None and count >= 8 * QSHARDS and name not in VMS) else 1
+            for k in range(nsh):
+                sharded.append((name, max(1, count // nsh), env, tag + ("-s%d" % k if nsh > 1 else ""), seed * 1000 + k if nsh > 1 else seed))
+        runs5 = sharded
         import concurrent.futures
-        with concurrent.futures.ThreadPoolExecutor(max_workers=SHARDS if thorough else 4) as ex:
+        with concurrent.futures.ThreadPoolExecutor(max_workers=SHARDS if thorough else 14) as ex:
             futs = [ex.submit(run_stream, workdir, name, sd, count, thorough, env, tag) for (name, count, env, tag, sd) in runs5]
             infos = [f.result() for f in futs]
         runs = [(n, c, e, t) for (n, c, e, t, _) in runs5]
@@ -277,7 +286,8 @@ def run_check(prop, tier):
                     if first is None or len(violations) < 40:
                         first = i
                         violations.append({"kind": "model-vs-impl", "stream": name + tag, "line": i, "op": o[:4000], "impl": str(pa)[:3000], "model": str(pb)[:3000],
-                                           "opkind": o.split(" ")[0], "impl_status": a.split(" ")[0], "model_status": b.split(" ")[0]})
+                                           "opkind": o.split(" ")[0], "impl_status": a.split(" ")[0], "model_status": b.split(" ")[0],
+                                           "pow_panics": "yes" if re.search(r"p:[0-9a-f]+:[0-9a-f]+:\d+:\d+:[0-9a-f]+:panics", o) else "no"})
             if len(model) != len(impl):
                 violations.append({"kind": "model-vs-impl", "stream": name + tag, "line": min(len(model), len(impl)), "op": "(stream length)", "impl": len(impl), "model": len(model), "opkind": "length"})
             # direct oracles on the implementation's results
